@@ -112,6 +112,17 @@ func isSel(e ast.Expr, pkg, name string) bool {
 	return ok && isIdent(s.X, pkg) && s.Sel.Name == name
 }
 
+// isDoneCall recognises `x.Done()` - by convention (context.Context) a channel
+// that is never sent on, only closed.
+func isDoneCall(e ast.Expr) bool {
+	c, ok := e.(*ast.CallExpr)
+	if !ok || len(c.Args) != 0 {
+		return false
+	}
+	s, ok := c.Fun.(*ast.SelectorExpr)
+	return ok && s.Sel.Name == "Done"
+}
+
 func isLiteral(e ast.Expr) bool {
 	switch v := e.(type) {
 	case *ast.BasicLit:
@@ -245,6 +256,7 @@ type clause struct {
 	ch        string
 	val       string
 	valLit    bool
+	doneLike  bool   // channel expression is X.Done(): only ever closed, probing it is harmless
 	bind      string // statement binding received values in the body
 	body      string
 }
@@ -282,6 +294,7 @@ func (r *rewriter) sel(s *ast.SelectStmt) string {
 				return r.node(s)
 			}
 			c.ch = r.node(u.X)
+			c.doneLike = isDoneCall(u.X)
 		case *ast.AssignStmt:
 			if len(m.Rhs) != 1 {
 				r.errorf(m.Pos(), "unsupported select clause")
@@ -293,6 +306,7 @@ func (r *rewriter) sel(s *ast.SelectStmt) string {
 				return r.node(s)
 			}
 			c.ch = r.node(u.X)
+			c.doneLike = isDoneCall(u.X)
 			var lhs []string
 			for _, l := range m.Lhs {
 				lhs = append(lhs, r.node(l))
@@ -332,7 +346,16 @@ func (r *rewriter) sel(s *ast.SelectStmt) string {
 			try[i] = fmt.Sprintf("case zvR%d, zvOk%d = <-zvC%d: zvFired = %d", i, i, i, i)
 		}
 	}
-	fmt.Fprintf(&b, "zvFired := -1\nzvK := zvs.Select(%d)\n", n)
+	b.WriteString("zvFired := -1\nzvA := zvs.SelectPoint()\n")
+	var probes []string
+	for i, c := range cl {
+		if c.isSend {
+			probes = append(probes, fmt.Sprintf("zvs.ProbeSend(zvA, zvC%d)", i))
+		} else {
+			probes = append(probes, fmt.Sprintf("zvs.ProbeRecv(zvA, zvC%d, %v)", i, c.doneLike))
+		}
+	}
+	fmt.Fprintf(&b, "zvK := zvs.SelectChoose(zvA, %s)\n", strings.Join(probes, ", "))
 	if n > 1 {
 		b.WriteString("switch zvK {\n")
 		for i := range cl {
@@ -401,7 +424,7 @@ func rewriteFile(path string) (string, map[string]int, []string) {
 			}
 			edits = append(edits, edit{r.off(im.Path.Pos()), r.off(im.Path.End()), txt})
 		}
-		if p == vsPath {
+		if im.Name != nil && im.Name.Name == "zvs" {
 			return "", nil, []string{path + ": already instrumented"}
 		}
 	}
